@@ -86,7 +86,6 @@ class VecV:
 
 class StrV:
     """String / str / Cow<str> contents: list of u8 terms (well-formedness tracked by the program)."""
-    __slots__ = ('b',)
 
     def __init__(self, b):
         self.b = list(b)
@@ -182,7 +181,6 @@ class BoxUninitV:
 
 
 class Opaque:
-    __slots__ = ('t', 'info')
 
     def __init__(self, t, info=None):
         self.t = t; self.info = info
